@@ -820,10 +820,16 @@ func (gb *GroupByBuckets) updateEValFromRunningBuckets(mInfo *structs.MeasureAgg
 				eVal.CVal = sumRawVal / countRawVal
 				eVal.Dtype = sutils.SS_DT_FLOAT
 			} else {
-				if bucket.count == 0 {
+				// divide by the number of records that had a numeric value, not by all records of the bucket
+				numCount := runningStats[sumIdx].numCount
+				if numCount == 0 {
+					// running stats that do not carry the count (e.g. sent by an older node)
+					numCount = bucket.count
+				}
+				if numCount == 0 {
 					avg = 0
 				} else {
-					avg = sumRawVal / float64(bucket.count)
+					avg = sumRawVal / float64(numCount)
 				}
 
 				eVal.CVal = avg
